@@ -147,6 +147,17 @@ pub fn run(ctx: &Ctx) {
             if big <= 700 {
                 expect!("Cobs<HVec>", trap(|| Cobs::try_new(HVec::<700>::new()).and_then(|f| serialize_with_flavor(&d, f)).map(|o| o.to_vec())), cobs_want);
             }
+            // the convenience entry points are the same stacks: identical bytes, whatever the storage
+            for (name, got) in [
+                ("to_allocvec_cobs", trap(|| postcard::to_allocvec_cobs(&d))),
+                ("to_stdvec_cobs", trap(|| postcard::to_stdvec_cobs(&d))),
+                ("to_slice_cobs", trap(|| postcard::to_slice_cobs(&d, &mut buf).map(|o| o.to_vec()))),
+            ] {
+                expect!(name, got, cobs_want);
+            }
+            if big <= 700 {
+                expect!("to_vec_cobs", trap(|| postcard::to_vec_cobs::<_, 700>(&d).map(|o| o.to_vec())), cobs_want);
+            }
             // recording user flavours alone
             calls.fetch_add(2, Ordering::Relaxed);
             match trap(|| serialize_with_flavor(&d, RecPush::default())) {
